@@ -22,6 +22,11 @@ CLAIMS = {
    text="Decides the structural conditions of the bounded ordered window: store and its aliases only under the mutex; only add/query/reset touch it; eviction exactly at len >= cap by s=s[1:] and exactly one append per message on every path (so len <= cap and arrival order by a ±1 shape argument); query count proven within [0,len] on every edge into the suffix slice; refusals never reach the store; reset stores an empty slice; rendering loops cannot skip; the data-type switch covers every supported type with an accessor its concrete element declares. HTTP/JSON behaviour and text-vs-value equality are not decided.",
    note="Trusted: net/http, fmt; go/ssa fidelity. Shapes other than reslice-from-front eviction are reported as unrecognised.",
    ref="DESIGN.md §5 C20"),
+ "C18": dict(
+   technique="configuration-object audit on go/ssa (allocation + every field store of each tls.Config/dtls.Config), provenance of CA pools and key pairs with checked results, path rule 'client auth set before use unless caCert==nil', dominance of dial/listen calls by the security-setting test",
+   text="Decides what the code asks of crypto/tls and pion/dtls: all four kinds of config objects (TLS/DTLS x client/server) are reconstructed from the source and compared with the settings the property needs (RootCAs from the caller's CA with the parse result checked, ServerName from the caller, MinVersion >= TLS1.2, no InsecureSkipVerify/verification override, extended master secret, RequireAndVerifyClientCert + ClientCAs from caCert on every path where a client CA may be configured), and every plaintext dial/listen is dominated by 'no security settings'. Chain validation, expiry, SAN matching and version negotiation themselves are run-time behaviour of the libraries and are not decided.",
+   note="Trusted: documented semantics of crypto/tls, crypto/x509 and pion/dtls configuration fields.",
+   ref="DESIGN.md §5 C18"),
 }
 NOT_YET = "rules designed (DESIGN.md §5) but not built yet in this round; no claim is made until the check exists"
 props=[json.loads(l) for l in open('/verif/properties.jsonl')]
